@@ -222,6 +222,11 @@ Definition td_step (p : tprops) (m : dmeta) : res tprops :=
             tp_crate := tp_crate p; tp_phf := tp_phf p; tp_prefix := tp_prefix p;
             tp_const_into_str := tp_const_into_str p; tp_dderives := tp_dderives p; tp_dname := tp_dname p;
             tp_dvis := tp_dvis p; tp_ddocs := tp_ddocs p ++ [s]; tp_dothers := tp_dothers p; tp_repr := tp_repr p |}
+  | DStrum _ =>
+      Ok {| tp_err_ty := tp_err_ty p; tp_err_fn := tp_err_fn p; tp_style := tp_style p; tp_aci := tp_aci p;
+            tp_crate := tp_crate p; tp_phf := tp_phf p; tp_prefix := tp_prefix p;
+            tp_const_into_str := tp_const_into_str p; tp_dderives := tp_dderives p; tp_dname := tp_dname p;
+            tp_dvis := tp_dvis p; tp_ddocs := tp_ddocs p; tp_dothers := tp_dothers p ++ [s_ "strum"]; tp_repr := tp_repr p |}
   | DOther t =>
       Ok {| tp_err_ty := tp_err_ty p; tp_err_fn := tp_err_fn p; tp_style := tp_style p; tp_aci := tp_aci p;
             tp_crate := tp_crate p; tp_phf := tp_phf p; tp_prefix := tp_prefix p;
